@@ -19,22 +19,22 @@ type opRef struct {
 }
 
 var c01OpTable = map[string]opRef{
-	"BIN_PLUS":       {ops: []string{"add", "fadd"}},
-	"BIN_MINUS":      {ops: []string{"sub", "fsub"}, ordered: true},
-	"BIN_MULT":       {ops: []string{"mul", "fmul"}},
-	"BIN_DIV":        {ops: []string{"fdiv"}, ordered: true},
-	"BIN_MOD":        {ops: []string{"srem", "urem"}, ordered: true},
-	"BIN_POW":        {ops: []string{"call"}, callee: "pow", ordered: true},
-	"BIN_LESS":       {ops: []string{"icmp", "fcmp"}, preds: []string{"IPredSLT", "IPredULT", "FPredOLT"}, ordered: true},
-	"BIN_LESS_EQ":    {ops: []string{"icmp", "fcmp"}, preds: []string{"IPredSLE", "IPredULE", "FPredOLE"}, ordered: true},
-	"BIN_GREATER":    {ops: []string{"icmp", "fcmp"}, preds: []string{"IPredSGT", "IPredUGT", "FPredOGT"}, ordered: true},
-	"BIN_GREATER_EQ": {ops: []string{"icmp", "fcmp"}, preds: []string{"IPredSGE", "IPredUGE", "FPredOGE"}, ordered: true},
-	"BIN_EQUAL":      {ops: []string{"icmp", "fcmp", "call"}, preds: []string{"IPredEQ", "FPredOEQ", ""}},
-	"BIN_LOGIC_AND":  {ops: []string{"and"}},
-	"BIN_LOGIC_OR":   {ops: []string{"or"}},
-	"BIN_LOGIC_XOR":  {ops: []string{"xor"}},
-	"BIN_XOR":        {ops: []string{"xor"}},
-	"BIN_LEFT_SHIFT": {ops: []string{"shl"}, ordered: true},
+	"BIN_PLUS":        {ops: []string{"add", "fadd"}},
+	"BIN_MINUS":       {ops: []string{"sub", "fsub"}, ordered: true},
+	"BIN_MULT":        {ops: []string{"mul", "fmul"}},
+	"BIN_DIV":         {ops: []string{"fdiv"}, ordered: true},
+	"BIN_MOD":         {ops: []string{"srem", "urem"}, ordered: true},
+	"BIN_POW":         {ops: []string{"call"}, callee: "pow", ordered: true},
+	"BIN_LESS":        {ops: []string{"icmp", "fcmp"}, preds: []string{"IPredSLT", "IPredULT", "FPredOLT"}, ordered: true},
+	"BIN_LESS_EQ":     {ops: []string{"icmp", "fcmp"}, preds: []string{"IPredSLE", "IPredULE", "FPredOLE"}, ordered: true},
+	"BIN_GREATER":     {ops: []string{"icmp", "fcmp"}, preds: []string{"IPredSGT", "IPredUGT", "FPredOGT"}, ordered: true},
+	"BIN_GREATER_EQ":  {ops: []string{"icmp", "fcmp"}, preds: []string{"IPredSGE", "IPredUGE", "FPredOGE"}, ordered: true},
+	"BIN_EQUAL":       {ops: []string{"icmp", "fcmp", "call"}, preds: []string{"IPredEQ", "FPredOEQ", ""}},
+	"BIN_LOGIC_AND":   {ops: []string{"and"}},
+	"BIN_LOGIC_OR":    {ops: []string{"or"}},
+	"BIN_LOGIC_XOR":   {ops: []string{"xor"}},
+	"BIN_XOR":         {ops: []string{"xor"}},
+	"BIN_LEFT_SHIFT":  {ops: []string{"shl"}, ordered: true},
 	"BIN_RIGHT_SHIFT": {ops: []string{"lshr", "ashr"}, ordered: true},
 }
 
@@ -354,4 +354,3 @@ func checkCountingLoop(c *Check) {
 		r.Decide(len(problems) == 0 && n > 0, "compiler.(*compiler).VisitForStmt|counter "+d.String(), fi.Decl.Pos(), "loop header shape confirmed", strings.Join(uniq(problems), "; "))
 	}
 }
-
